@@ -68,6 +68,39 @@ Theorem C17_timer_starts_join : forall grp evs id, let s := state_after grp evs 
 Proof. exact fire_starts_join. Qed.
 Print Assumptions C17_timer_starts_join.
 
+(* ... and so does EVERY armed join_and_sync call, the coordinator-lookup retries included (any state, no reachability needed). *)
+Theorem C17_any_timer_starts_join : forall s id k,
+  In (id, k) (timers s) -> (is_group s && stop_requested s) = false -> rejoin_needed s = true -> rejoin_d s = None ->
+  snd (step s (EFire id)) = [OLookup (next_rid s)] /\ gens (fst (step s (EFire id))) <> [] /\ rejoin_d (fst (step s (EFire id))) <> None.
+Proof. exact any_timer_starts_join. Qed.
+Print Assumptions C17_any_timer_starts_join.
+
+(* The failures do reach that funnel (step level, any state): a failed JoinGroup / SyncGroup reply addressed to the generator
+   awaiting it, a Kafka error from the metadata load or the leader's partition lookup, a failed heartbeat of the running looper
+   ARE the call rejoin_after_error k on the state without that generator / heartbeat request. *)
+Theorem C17_join_failure_is_rejoin_after_error : forall s rid k g rest, take_first (awaits (GJoin rid)) (gens s) = Some (g, rest) ->
+  step s (EJoin rid (JFail k)) = (fst (gen_end (fst (rejoin_after_error k (set_gens rest s)))), snd (rejoin_after_error k (set_gens rest s))).
+Proof. exact join_fail_step. Qed.
+Print Assumptions C17_join_failure_is_rejoin_after_error.
+Theorem C17_sync_failure_is_rejoin_after_error : forall s rid k g rest, take_first (awaits (GSync rid)) (gens s) = Some (g, rest) ->
+  step s (ESync rid (SFail k)) = (fst (gen_end (fst (rejoin_after_error k (set_gens rest s)))), snd (rejoin_after_error k (set_gens rest s))).
+Proof. exact sync_fail_step. Qed.
+Print Assumptions C17_sync_failure_is_rejoin_after_error.
+Theorem C17_metadata_failure_is_rejoin_after_error : forall s rid k g rest, take_first (awaits (GMeta rid)) (gens s) = Some (g, rest) ->
+  is_kafka k = true -> step s (EMeta rid (RFail k)) = rejoin_after_error k (set_rejoin_d None (set_gens rest s)).
+Proof. exact meta_fail_step. Qed.
+Print Assumptions C17_metadata_failure_is_rejoin_after_error.
+Theorem C17_partition_lookup_failure_is_rejoin_after_error : forall s rid k g rest, take_first (awaits (GParts rid)) (gens s) = Some (g, rest) ->
+  is_kafka k = true -> step s (EParts rid (PFail k)) = rejoin_after_error k (set_rejoin_d None (set_gens rest s)).
+Proof. exact parts_fail_step. Qed.
+Print Assumptions C17_partition_lookup_failure_is_rejoin_after_error.
+Theorem C17_heartbeat_failure_is_rejoin_after_error : forall s rid k, hb_req s = Some rid -> hb_running s = true ->
+  step s (EHbReply rid (RFail k)) =
+  (fst (rejoin_after_error k (set_hb_running false (set_hb_req None s))),
+   OCancelTimer THeartbeat 0 :: snd (rejoin_after_error k (set_hb_running false (set_hb_req None s)))).
+Proof. exact hb_fail_step. Qed.
+Print Assumptions C17_heartbeat_failure_is_rejoin_after_error.
+
 (* Coordinator lookup: no coordinator yet / CoordinatorNotAvailable / NotCoordinator retry after initial_backoff_ms, a timeout
    or any other Kafka error after fatal_backoff_ms (any state, any generator waiting for that lookup). *)
 Theorem C17_lookup_failure_retried : forall s rid r g rest, take_first (awaits (GLookup rid)) (gens s) = Some (g, rest) ->
@@ -94,6 +127,14 @@ Proof. exact leave_reply_surfaces. Qed.
 Print Assumptions C17_fatal_surfaces_after_leave.
 
 (* ---- non-vacuity: the hypotheses are met by reachable, non-trivial states ---- *)
+Example retriable_nonvacuous :           (* a commit rejected with ILLEGAL_GENERATION in a stable member with two consumers *)
+  let s := state_after true [EStart; ELookup 0 LBroker; EMeta 1 ROk; EJoin 2 (JOk 5 7 0); ESync 3 (SOk [(0, 1); (1, 0)])] in
+  stopping s = false /\ dc s = DcNone /\ snd (rejoin_after_error KIllGen s) = [OStopC 0; OStopC 1; OSched TRejoin DRetry 0].
+Proof. vm_compute. auto. Qed.
+Example lookup_retry_nonvacuous :        (* no coordinator yet, then a time-out: initial back-off, then fatal back-off; each fired call looks up again *)
+  snd (run false [EStart; ELookup 0 LNone; EFire 0; ELookup 1 (LFail KTimeout); EFire 1])
+  = [[OLookup 0; OApi 0]; [OSched TCoordRetry DInitial 0]; [OLookup 1]; [OSched TCoordRetry DFatal 1]; [OLookup 2]].
+Proof. vm_compute. reflexivity. Qed.
 Example never_idle_nonvacuous_stable :   (* a leader that joined, synced and runs two consumers *)
   let evs := [EStart; ELookup 0 LBroker; EMeta 1 ROk; EJoin 2 (JOk 5 7 1); EParts 3 POk; ESync 4 (SOk [(0, 1); (1, 0)])] in
   let s := state_after true evs in
